@@ -183,11 +183,14 @@ def add_cand_edges(
         node_frame_dict = _compute_node_frame_dict(cand_graph)
 
     frames = sorted(node_frame_dict.keys())
-    prev_node_ids = node_frame_dict[frames[0]]
-    prev_kdtree = create_kdtree(cand_graph, prev_node_ids)
+    prev_frame = None  # the frame that prev_node_ids and prev_kdtree belong to
     for frame in tqdm(frames):
         if frame + 1 not in node_frame_dict:
             continue
+        if prev_frame != frame:
+            # first frame, or the frame before this one had no nodes
+            prev_node_ids = node_frame_dict[frame]
+            prev_kdtree = create_kdtree(cand_graph, prev_node_ids)
         next_node_ids = node_frame_dict[frame + 1]
         next_kdtree = create_kdtree(cand_graph, next_node_ids)
 
@@ -202,3 +205,4 @@ def add_cand_edges(
 
         prev_node_ids = next_node_ids
         prev_kdtree = next_kdtree
+        prev_frame = frame + 1
